@@ -1024,7 +1024,11 @@ def _prefixscan_combine(func, binop, pre, x, axis, dtype):
     # We could compute this in two tasks.
     # This would allow us to do useful work (i.e., func), while waiting on `pre`.
     # Using one task may guide the scheduler to do better and reduce scheduling overhead.
-    return binop(pre, func(x, axis=axis, dtype=dtype))
+    out = binop(pre, func(x, axis=axis, dtype=dtype))
+    # ``pre`` comes from ``preop`` and has the dtype of the input, not the requested one
+    if dtype is not None and getattr(out, "dtype", dtype) != dtype and hasattr(out, "astype"):
+        out = out.astype(dtype)
+    return out
 
 
 def _prefixscan_first(func, x, axis, dtype):
